@@ -36,6 +36,7 @@ if sys.argv[1:] and os.path.exists('/verif/seeded/MATRIX.md'):
 with open('/verif/seeded/MATRIX.md','w') as f:
     head=subprocess.run(['git','-C','/repo','rev-parse','--short','HEAD'],capture_output=True,text=True).stdout.strip()
     f.write(f'# Seeded defects against the checks (tree {head}, quick tier, default seed)\n\n')
+    f.write(f'{sum(1 for r in rows if r[3]=="caught")} of {len(rows)} reported (verdict "caught" = the check named in the third column exits 1 with a VIOLATION line of a class that is not a known finding).\n\n')
     f.write('| id | breaks | check | verdict | violation classes reported (occurrences) | what it needs to manifest |\n|---|---|---|---|---|---|\n')
     for r in rows:
         f.write('| '+' | '.join(x.replace('|','/') for x in r)+' |\n')
